@@ -90,6 +90,45 @@ class C06(E1Prop):
                 'bypass_build_status']
         return cfg
 
+    def next_op(self, w, rng, step, nsteps):
+        from .. import ops
+        if step == 0:
+            self.script = []
+            dests = ops.dest_branches(w.cfg)
+            if len(dests) >= 2 and rng.random() < 0.3:
+                # story: A's integration commits are built and green; then
+                # a later destination moves (B lands there) and A is
+                # evaluated again before CI said anything new
+                lo = rng.choice(dests[:-1])
+                later = dests[dests.index(lo) + 1:]
+                hi = rng.choice(later)
+                seq = [
+                    {'op': 'open_pr', 'actor': 'alice',
+                     'src': 'bugfix/TEST-941', 'dst': lo, 'kind': 'new'},
+                    {'op': 'eval', 'p': 0},
+                    {'op': 'ci_green_all', 'which': ['src', 'w']},
+                    {'op': 'open_pr', 'actor': 'bob',
+                     'src': 'feature/TEST-942', 'dst': hi, 'kind': 'new'},
+                    {'op': 'eval', 'p': 1},
+                    {'op': 'ci', 'state': 'SUCCESSFUL', 'target': ['src', 1]},
+                    {'op': 'ci', 'state': 'SUCCESSFUL',
+                     'target': ['w', 1, 0]},
+                    {'op': 'ci', 'state': 'SUCCESSFUL',
+                     'target': ['w', 1, 1]},
+                    {'op': 'eval', 'p': 1},
+                    {'op': 'ci_green_all', 'which': ['q']},
+                    {'op': 'deliver_all'},
+                    {'op': 'eval', 'p': 0},
+                    {'op': 'ci_green_all', 'which': ['src', 'w']},
+                    {'op': 'eval', 'p': 0},
+                ]
+                for o in seq:
+                    o['dt'] = rng.choice([1, 5, 30])
+                self.script = seq
+        if getattr(self, 'script', None):
+            return self.script.pop(0)
+        return self.gen.next(w)
+
     def current(self, w, sha):
         return w.mock.Repository.revisions.get((sha, w.build_key),
                                                'NOTSTARTED')
@@ -125,6 +164,29 @@ class C06(E1Prop):
                     refs_before_last_push_all(rec)
                 tips = integration_tips(refs, pr.src_branch)
                 w.probe('gate-passed')
+                if status == 'SuccessMessage':
+                    # merged directly: the integration commit of a target
+                    # beyond the first is the one that integrates the PR
+                    # with that target *as it is now* (a destination update
+                    # between build report and evaluation renews it)
+                    from ..models import layout_from_refs
+                    before = rec['refs_before']
+                    lay = layout_from_refs(before)
+                    for t in (lay.targets(pr.dst_branch) or [])[1:]:
+                        name = 'w/%s/%s' % (t.split('/', 1)[1],
+                                            pr.src_branch)
+                        if name in tips and t in before and \
+                                not w.is_ancestor(before[t], tips[name]):
+                            raise Violation(
+                                'C06', 'C06:merged-on-superseded-'
+                                'integration-commit',
+                                'PR #%d was merged directly although %s '
+                                '(%s, the commit CI reported on) does not '
+                                'contain the current tip %s of %s' % (
+                                    pid, name, tips[name][:10],
+                                    before[t][:10], t), {'pr': pid})
+                        w.probe('direct-merge-on-current-integration-'
+                                'commit')
                 for name, sha in sorted(tips.items()):
                     st = self.current(w, sha)
                     if st != 'SUCCESSFUL':
